@@ -115,7 +115,7 @@ impl PointCloud {
                 {
                     continue;
                 }
-                guids.push(n.text().unwrap_or("").to_owned())
+                guids.push(xml::element_text(&n))
             }
             Some(guids)
         } else {
